@@ -90,6 +90,8 @@ func c10Subsets(pool []string, k int) [][]string {
 
 type c10Stats struct{ evals, layouts int64 }
 
+var c10Out vOutcomes
+
 func c10Kind(k string) nfsim.Kind {
 	if k == "nft" {
 		return nfsim.Nft
@@ -117,13 +119,15 @@ func c10Check(c *vk.Ctx, rs *nfsim.Ruleset, b *nfsim.Builder, l c10Layout, dir, 
 		}
 		got = "UNDEFINED-CHAIN:" + ue.Chain
 	}
-	c.Outcome(fmt.Sprintf("%s/%s/%s/%s", l.What, dir, keyClass, strings.SplitN(got, ":", 2)[0]))
+	c10Out.add(c, fmt.Sprintf("%s/%s/%s/%s", l.What, dir, keyClass, strings.SplitN(got, ":", 2)[0]))
 	if want == "" || got == want {
 		return true
 	}
 	resT, _ := rs.Eval(entry, pk, true)
 	cls := "wrong-chain"
 	switch {
+	case strings.HasPrefix(want, "CHAIN:") && !strings.HasPrefix(got, "CHAIN:") && strings.HasPrefix(keyClass, "unknown-wildcard"):
+		cls = "not-sent-to-wildcard-endpoint"
 	case strings.HasPrefix(want, "CHAIN:") && !strings.HasPrefix(got, "CHAIN:"):
 		cls = "known-iface-not-dispatched"
 	case want == "DROP":
@@ -406,6 +410,7 @@ func TestVerif_C10(t *testing.T) {
 		c.Add("states", total.layouts)
 		c.Add("transitions", total.evals)
 		c.Extra("max_workload_set_size", maxSet)
+		c10Out.publish(c)
 		fmt.Printf("INFO C10 layouts=%d probes executed=%d\n", total.layouts, total.evals)
 	})
 }
